@@ -28,8 +28,8 @@ EXPLANATION = ("R1: every array-indexed copy of the BLAKE3 round function is eva
                "whole function; TPc/TPr transpose_vecs is the N x N transposition (4/8/16); TPc/TPmr the message loaders give "
                "out[j].lane[k] = word j of input k's block; XNc blake3_xof4/8/16_avx512 whole function; HNc the six C hashN kernels as "
                "three straight-line regions (before the block loop, loop body at a representative index, after the loop). "
-               "Residual: the Rust hashN loop bodies are decided only piecewise (round function, counters, state rows, flag schedule, "
-               "drivers, transposes, message loaders -- not as one composed region); the MSVC .asm flavour cannot be assembled here.")
+               "HNr: the Rust hash4/hash8 kernels likewise as three MIR regions. "
+               "Residual: the NEON and wasm32 kernels (not compiled on this target) and the MSVC .asm flavour (cannot be assembled here).")
 TRUSTED = ["rustc nightly MIR; clang JSON AST", "clang -c + llvm-objdump disassembly and engines/asmabi/asmsym.py instruction semantics (about 100 mnemonics, lane-exact; unknown forms fail closed)", "engines/rules/symexec.py term normal form", "engines/specmodel/blake3_spec.py G network",
            "vendor intrinsics _mm*_add_epi32 / xor / or / srli / slli / ror are lane-wise 32-bit operations"]
 ASSUMPTIONS = ["uint8_t / bool register arguments arrive zero-extended (as every mainstream compiler passes them; the sse2/sse41 kernels rely on it)", "stores through `out` do not alias the inputs read later in the same region"]
@@ -67,6 +67,7 @@ def run(ctx):
     ctx.run_rule("TPmr", r_round.rule_TPm_rust, ["pure-full"])
     ctx.run_rule("XNc", r_round.rule_XN_c)
     ctx.run_rule("HNc", r_round.rule_HN_c)
+    ctx.run_rule("HNr", r_round.rule_HN_rust, ["pure-full"])
     ctx.run_rule("K5r", r_round.rule_K5_rust, ["pure-full"])
     for name in ("rule_R1_c",):
         if hasattr(r_round, name):
